@@ -152,4 +152,52 @@ CLAIMS['C20'] = {
     'note': COMMON_NOTE + "number spelling is the parser's business (C18 int_value); the composition of the per-stage theorems into one end-to-end equality of emitted bytes is not formalised (prettyplease is outside the model).",
     'technique': 'Lean 4 proof (one lemma per rewrite; sorted-permutation uniqueness) + differential correspondence + byte-identity metamorphic oracle',
 }
+CLAIMS['C09'] = {
+    'text': ("Two layers of theorems. Abstract worklist (any monotone attempt): any two schedules agree on everything both resolve, a hard error "
+             "under one schedule excludes success under every other, a stuck run ends at the registry of all derivable facts "
+             "(schedule_independent_partial, error_is_schedule_independent, stuck_set_is_schedule_independent). Concrete: the readers "
+             "through which pyxis's attempt sees the registry are monotone along registry extension (size_mono, align_mono, pfield_mono, "
+             "lookup_ignores_resolution, setState_extends), and every place where the Rust iterates a hash container is followed by a sort "
+             "that removes the order (worklist_order_independent, files_order_independent). Mono for the whole of type_definition::build is "
+             "NOT proved, hence `_partial`. The unconditional claim is decided on the implementation on every run: all permutations of the "
+             "resolution priority (exhaustive up to 5/6 user items) through the pyxis_verif hook, all module-addition orders, repeated "
+             "builds in one process, hook-free runs in fresh processes; all variants must be byte-identical or all fail. Known open "
+             "finding: a signature naming a generated <T>Vftable type."),
+    'note': COMMON_NOTE + "the whole-attempt monotonicity is an unproved hypothesis of the end-to-end statement; hash seeds are sampled, resolution orders enumerated through the hook.",
+    'technique': 'Lean 4 proof (abstract confluence of monotone worklists + monotone readers + sort lemmas) + exhaustive schedule enumeration through a hook + differential correspondence',
+}
+CLAIMS['C10'] = {
+    'text': ("Theorems: rounds_bound_suffices / rounds_progress – the resolution loop always ends with a verdict within 2*unresolved+2 rounds, every "
+             "continuing round resolves an item or registers a generated item; nonterm_lists_unresolved – the error lists exactly the "
+             "unresolved items; success_resolves_everything; size_known_iff / size_unknown_defers – a size is known iff all by-value "
+             "dependencies are resolved, pointers contribute nothing (C09.pointer_size_immediate); unknown_field_name_defers, "
+             "unknown_enum_base_defers, unknown_extern_value_type_rejected_partial(_err) (the unrestricted form is refuted inside Lean: an "
+             "earlier extern value can panic first when u8 is missing). The global iff (acyclic and defined <=> accepted) is decided on the "
+             "implementation against an independent fixed-point analysis of generated dependency graphs (chains to depth 12, cycles, "
+             "undefined names in 8 positions), including the exact set named in the error and the presence of every item and field."),
+    'note': COMMON_NOTE + "the global iff is not a theorem; it is checked per run on generated graphs. Known open finding shared with C09 (generated vftable in a signature).",
+    'technique': 'Lean 4 proof (termination measure over rounds; fold inversion lemmas) + differential correspondence + independent graph oracle',
+}
+CLAIMS['C18'] = {
+    'text': ("A complete executable model of the front end (the proc_macro2 fallback lexer with syn's literal decoding, and src/parser/mod.rs "
+             "node for node) and theorems: parse_print_tokens(_any) – the parser inverts the token printer for every well-formed module, by "
+             "structural induction over the grammar; lex_render – the lexer inverts rendering for EVERY lay-out (whitespace, line comments, "
+             "nested block comments, integer base / separators / case, doc comments as ///, /** */ or attributes); parse_render – their "
+             "composition; int_value* – every spelling of a number denotes its value; parse_error_has_position. On every run the model is "
+             "compared with the real parser on 450 corpus texts, on modules rendered by the Lean printer with seeded lay-outs (the real "
+             "parser must return the original module) and on mutated texts (same verdict and same error position)."),
+    'note': COMMON_NOTE + "identifiers are ASCII (Unicode XID identifiers are accepted by the real lexer and rejected by the model: documented exclusion, one corpus case); WF excludes keywords, `unknown` as a type name, a private field called `vftable`, glued generic names.",
+    'technique': 'Lean 4 proof (structural induction over grammar and token lists; maximal-munch lexing lemmas) + differential testing against syn/proc_macro2',
+}
+CLAIMS['C19'] = {
+    'text': ("Locality theorems the frame property rests on: lookup_local / lookup_answer_is_candidate – a name lookup inspects a fixed list of "
+             "candidate paths and answers with one of them; size_local – size and alignment depend on the by-value dependencies only; "
+             "enum_items_local, type_items_local, type_items_no_bases, module_file_local – a module's file is printed from its own definition "
+             "paths and (through base hierarchies) the entries of its bases. The end-to-end frame statement composes these with C09 and is "
+             "decided on the implementation per run: accepted worlds are changed only outside what the observed module reaches (new "
+             "modules with decoy names, unreferenced types, edits and removals of unreachable items) and the observed file must stay "
+             "byte-identical."),
+    'note': COMMON_NOTE + "the end-to-end frame theorem is not formalised (it inherits C09's unproved whole-attempt monotonicity); reachability in the oracle uses unique names per world.",
+    'technique': 'Lean 4 proof (congruence of lookup / layout / emission in the registry entries they read) + differential correspondence + metamorphic frame oracle',
+}
 NOT_CLAIMED = {}
